@@ -58,7 +58,7 @@ def depth_of(v):
     return 1 + max([depth_of(x) for x in v.values()] + [0]) if isinstance(v, dict) else 0
 
 
-def run(ctx):
+def _run_main(ctx):
     import nir
     rng = ctx.rng
     cases, obs, reqs = [], [], []
@@ -158,3 +158,11 @@ def run(ctx):
     finally:
         import shutil
         shutil.rmtree(tmpdir, ignore_errors=True)
+
+
+def run(ctx):
+    _run_main(ctx)
+    # history independence: the same call on a live graph object with a history of edits / calls and on a twin rebuilt
+    # from its public state (harness/history.py)
+    import history
+    history.run(ctx, ["file_rt", "path_rt", "to_dict"], {"file_rt": "read(write(g)) of a graph object whose metadata has a history", "path_rt": "read(write(g)) of a graph object whose metadata has a history", "to_dict": "to_dict of a graph object whose metadata has a history"})
